@@ -77,9 +77,9 @@ func c13Expand(tmpl, escPath, query, host, strip, prepend string) (string, bool)
 
 func TestVerifC13Inputs(t *testing.T) {
 	L := ev.Begin("C13", "c13-inputs", "exploration",
-		"15 redirect templates (every form of docs/http-redirects.md and target_test.go, with/without own query, $host, $path with and without separating slash, an own path that needs escaping, a fragment) x request path (incl. %2F, %20, %C3%A4, strip-prefix-only) x query x host (with/without port) x strip x prepend (plus values of both that need escaping themselves and a strip prefix spelled with an escape) x code (301,302,303,307,308 valid; 299,400,abc invalid) x request kind (plain, websocket upgrade, event stream) x protocol version (HTTP/1.1, 1.0, 2) x forwarding headers naming another host, served by the real HTTPProxy.ServeHTTP; oracle: status, Location = independent expansion on the escaped path, upstream never contacted; invalid codes never redirect, every code 300..399 answers with that code, path-changing redirects on the own host are issued; self redirects are recognised with the scheme named by X-Forwarded-Proto and, for directly connected clients, with the scheme of the connection. non-trivial = template with $path or $host")
+		"15 redirect templates (every form of docs/http-redirects.md and target_test.go, with/without own query, $host, $path with and without separating slash, an own path that needs escaping, a fragment) x request path (incl. %2F, %20, %C3%A4, strip-prefix-only) x query (incl. one that is not in any canonical form) x host (with/without port) x strip x prepend (plus values of both that need escaping themselves and a strip prefix spelled with an escape) x code (301,302,303,307,308 valid; 299,400,abc invalid) x request kind (plain, websocket upgrade, event stream) x protocol version (HTTP/1.1, 1.0, 2) x forwarding headers naming another host, served by the real HTTPProxy.ServeHTTP; oracle: status, Location = independent expansion on the escaped path, upstream never contacted; invalid codes never redirect, every code 300..399 answers with that code, path-changing redirects on the own host are issued; self redirects are recognised with the scheme named by X-Forwarded-Proto and, for directly connected clients, with the scheme of the connection. non-trivial = template with $path or $host")
 	paths := []string{"/", "/a", "/a/b", "/a%2Fb", "/a%20b", "/%C3%A4", "/s", "/s/a", "/s/a%2Fb"}
-	queries := []string{"", "q=1", "q=1&r=%2F"}
+	queries := []string{"", "q=1", "q=1&r=%2F", "z=%20x&a==&debug"} // the last: keys not in order, %20, a bare key, '=' in a value - carried as sent
 	hosts := []string{"foo.com", "foo.com:8080"}
 	type job struct {
 		tmpl, path, query, host, strip, prepend, code string
